@@ -3,7 +3,7 @@ import ast
 import re
 
 from ..framework import rule
-from ..astutil import dotted, call_name, call_recv, norm, walk_local, unparse, ancestors
+from ..astutil import parents_map, ancestors, dotted, call_name, call_recv, norm, walk_local, unparse, ancestors
 from .. import q
 from .common import assigned_value, kw, arg, enclosing_for
 
@@ -295,6 +295,38 @@ def r3(ctx, R):
         R.inst("%s appends load_pickledata for the cells' inputs" % pname)
         if not any(isinstance(n, ast.Attribute) and n.attr == "load_pickledata" for n in walk_local(fi.node)):
             R.bad(fi, fi.node, "input values of the cells are not restored", stmt="load_pickledata")
+    se = ctx.func(S6 + ":SpaceEncoder.__init__")
+    R.inst("SpaceEncoder: every cells that can hold assigned values gets an encoder (which pickles them)")
+    mk = q.calls(se, name="CellsEncoder")
+    if not mk:
+        R.bad(se, se.node, "no cells encoder is created", stmt="CellsEncoder(")
+    else:
+        g = q.guards_of(se, mk[0])
+        restr = sorted(t for t, l in g if "_is_defined" in t or "is_derived" in t)
+        if restr:
+            # set_value_from_key accepts an assignment on a derived cells and leaves it derived: the values of
+            # the cells that get no encoder must be written some other way (the _dynamic_inputs file)
+            pd = ctx.func(S6 + ":SpaceEncoder.pickle_dynamic_inputs")
+            okd = False
+            for c in [x for x in ast.walk(pd.node) if isinstance(x, ast.Call) and call_name(x) == "_pickle_inputs"]:
+                lp = next((a for a in ancestors(parents_map(pd.node), c) if isinstance(a, ast.For)), None)
+                src = q.origin(pd, lp.iter) if lp is not None else None
+                if isinstance(src, (ast.ListComp, ast.GeneratorExp)) and len(src.generators) == 1 and \
+                        norm(src.generators[0].iter) in ("self.space.cells.values()", "self.space._cells.values()"):
+                    conds = " and ".join(norm(i) for i in src.generators[0].ifs)
+                    v = norm(src.generators[0].target)
+                    if ("not %s._is_defined()" % v) in conds and not any(
+                            isinstance(x, ast.Call) and call_name(x) not in ("_is_defined",) for i in src.generators[0].ifs for x in ast.walk(i)) \
+                            and len(c.args) >= 2 and norm(c.args[1]) == norm(lp.target) and norm(src.elt) == v:
+                        # and the file is written when there are such cells
+                        wf = [x for x in ast.walk(pd.node) if isinstance(x, ast.Call) and call_name(x) == "write_file_utf8"]
+                        lname = norm(lp.iter)
+                        if wf and q.reached_under(pd, wf[0], lambda e: "T" if norm(e) == lname else "F"):
+                            okd = True
+            if not okd:
+                R.bad(se, mk[0], "only defined cells are written (%s): values assigned on a derived cells "
+                                 "(C = new_space(bases=A); C.foo[1] = 5) are silently dropped by write/read" % ", ".join(restr),
+                      stmt="derived cells inputs not written")
     ce = ctx.func(S6 + ":CellsEncoder.encode")
     R.inst("CellsEncoder emits _is_cached exactly when the flag is False and _allow_none when it is set")
     g = [n for n in ce.cfg.nodes if n.kind == "test"]
@@ -359,6 +391,31 @@ def r4(ctx, R):
         if not ok or not trailing:
             R.bad(qd, qd.node, "quote_doc does not escape backslashes first, then the delimiter, then a trailing quote",
                   stmt="quote_doc body")
+    sc = ctx.func(S6 + ":SourceStructure.construct")
+    R.inst("SourceStructure.construct: a divider line inside a string literal (doc text) starts no section")
+    div = [n_ for n_ in sc.cfg.nodes if n_.kind == "test" and "SECTION_DIVIDER" in norm(n_.ast)]
+    if not div:
+        R.bad(sc, sc.node, "section divider test not found", stmt="SECTION_DIVIDER")
+    else:
+        # the divider test is reached only for lines that are not inside a string token: some membership
+        # test on a set built from tokenize STRING tokens must fail first
+        excl = []
+        for n_ in sc.cfg.nodes:
+            if n_.kind == "test" and isinstance(n_.ast, ast.Compare) and len(n_.ast.ops) == 1 \
+                    and isinstance(n_.ast.ops[0], (ast.In, ast.NotIn)):
+                src = q.origin(sc, n_.ast.comparators[0])
+                if isinstance(src, ast.Call):
+                    cs = ctx.cg.site_of(src)
+                    tg = [t for t, p in cs.targets] if cs is not None else []
+                    if any("STRING" in ast.unparse(t.node) and "generate_tokens" in ast.unparse(t.node) for t in tg):
+                        excl.append((n_, "F" if isinstance(n_.ast.ops[0], ast.In) else "T"))
+        okx = False
+        for n_, lab in excl:
+            if all(sc.cfg.depends_on(d.id, n_.id, lab) for d in div):
+                okx = True
+        if not okx:
+            R.bad(sc, div[0].ast, "the section scan looks at raw source lines, also those inside doc strings: a doc that "
+                                  "contains the divider followed by '# References' makes the written model unreadable")
     dp = ctx.func(S6 + ":DocstringParser.get_instruction")
     R.inst("DocstringParser sets doc from the parsed string value (not the raw source text)")
     c = q.calls(dp, name="from_method")
@@ -433,7 +490,7 @@ def r5(ctx, R):
     for c in q.calls(oi):
         if norm(c.func) == "obj" and [norm(a) for a in c.args] != ["*key"]:
             R.bad(oi, c, "input log evaluates something other than the logged key")
-    for spec in (S6 + ":CellsEncoder.pickle_value", S6 + ":SpaceEncoder._pickle_dynamic_space"):
+    for spec in (S6 + ":CellsEncoder.pickle_value", S6 + ":SpaceEncoder._pickle_inputs"):
         f = ctx.func(spec)
         R.inst("%s pickles only keys in input_keys" % spec)
         if not any("input_keys" in norm(n_.iter) for n_ in walk_local(f.node) if isinstance(n_, ast.For)) and \
